@@ -32,8 +32,12 @@ impl DuplicateServiceUuid {
             }
         }
 
-        for (_, entries) in uuids {
+        for (_, mut entries) in uuids {
             if entries.len() > 1 {
+                // The schemas come out of a hash map. Its iteration order must not decide which
+                // schema the diagnostic is primarily reported for.
+                entries.sort_by(|a, b| a.0.name().cmp(b.0.name()));
+
                 let first = entries.first().unwrap();
 
                 issues.add_error(Self {
